@@ -363,11 +363,14 @@ def bb_cases(rng, tier):
     return out
 
 
-def h2_scenario(rng, cid):
-    """one HTTP/2 stream for the black-box tier: header list + DATA schedule (+ trailers)"""
+def h2_stream(rng, tag):
+    """one HTTP/2 stream: header list + a DATA schedule (+ trailers); every way of ending a stream
+    (DATA+END_STREAM, empty DATA+END_STREAM, TRAILERS+END_STREAM, END_STREAM on HEADERS) is crossed with
+    every Content-Length / DATA relation (none, exact, short, long, bad, duplicate)"""
     h2c = rng.random() < 0.3
     clean = rng.random() < 0.45      # only the framing is adversarial
-    method, path, auth, scheme = rng.choice(["POST", "POST", "GET", "PUT"]), ("/h2/a" if h2c else rng.choice(["/", "/a?b"])), "localhost", "https"
+    good_path = ("/h2/%s" % tag) if h2c else ("/%s" % tag)
+    method, path, auth, scheme = rng.choice(["POST", "POST", "GET", "PUT"]), good_path, "localhost", "https"
     r = 1.0 if clean else rng.random()
     if r < 0.08:
         method = rng.choice(["GE T", "G\x00T", "", "get"])
@@ -409,121 +412,171 @@ def h2_scenario(rng, cid):
         regs.append((n, v))
     if not clean and rng.random() < 0.06 and regs:
         regs.insert(rng.randint(1, len(regs)), pseudo.pop())
-    # framing
-    kind = rng.choice(["exact", "exact", "short", "long", "early", "cl-es", "nocl", "nocl", "nocl-trl", "cl-trl", "badcl", "dupcl", "es"])
+    # framing: relation x ending
+    rel = rng.choice(["exact", "exact", "short", "short", "long", "long", "nocl", "nocl", "badcl", "dupcl", "es", "cl-es"])
+    ending = rng.choice(["data", "data", "empty", "trailers", "trailers"])
     d = rng.choice([0, 1, 5, 9])
+    if rel == "short" and d == 0:
+        rel = "exact"
     evs, trl, es = [], None, 0
-    if kind == "es":
-        es = 1
-    elif kind == "cl-es":
+    if rel == "es":
+        es, ending = 1, "headers"
+    elif rel == "cl-es":
         regs.append(("content-length", str(d)))
-        es = 1
-    elif kind in ("exact", "short", "long", "early", "cl-trl", "badcl", "dupcl"):
-        cl = str(d)
-        if kind == "badcl":
-            cl = rng.choice(["+%d" % d, "%d " % d, "0x%d" % d, "", "%d,%d" % (d, d)])
-        regs.insert(rng.randint(0, len(regs)), ("content-length", cl))
-        if kind == "dupcl":
-            regs.append(("content-length", rng.choice([str(d), "0" + str(d), str(d + 1)])))
-        total = {"short": max(0, d - 1), "long": d + 3, "early": d // 2}.get(kind, d)
-        if kind == "short" and d == 0:
-            total = 0
+        es, ending = 1, "headers"
+    else:
+        if rel != "nocl":
+            cl = str(d)
+            if rel == "badcl":
+                cl = rng.choice(["+%d" % d, "%d " % d, "0x%d" % d, "", "%d,%d" % (d, d)])
+            regs.insert(rng.randint(0, len(regs)), ("content-length", cl))
+            if rel == "dupcl":
+                regs.append(("content-length", rng.choice([str(d), "0" + str(d), str(d + 1)])))
+        total = {"short": rng.randint(0, d - 1) if d else 0, "long": d + rng.randint(1, 4), "nocl": rng.randint(0, 12)}.get(rel, d)
         parts = []
         while total > 0:
             k = rng.randint(1, total)
             parts.append(k)
             total -= k
-        if kind == "long" and len(parts) < 2:
-            parts = [d, 3] if d else [3]
-        if kind == "cl-trl":
-            evs = [(0, k) for k in parts] + [(2,)]
-            trl = [(rng.choice(["grpc-status", "x-t", "sozu-id", "x-forwarded-for", "x-request-id"]), "0")]
-        else:
+        if ending == "data":
             parts = parts or [0]
             evs = [(0, k) for k in parts[:-1]] + [(1, parts[-1])]
-    elif kind == "nocl":
-        parts = [rng.randint(0, 6) for _ in range(rng.randint(1, 3))]
-        evs = [(0, k) for k in parts[:-1]] + [(1, parts[-1])]
-    else:  # nocl-trl
-        evs = [(0, rng.randint(1, 6)) for _ in range(rng.randint(0, 2))] + [(2,)]
-        trl = [(rng.choice(["grpc-status", "x-t", "sozu-id", "x-forwarded-for", "forwarded", "x-real-ip", "Bad", "connection"]), rng.choice(["0", "a\r\nb"]))]
-    hs = pseudo + regs
-    ops = [["hdr", es] + [t for (n, v) in hs for t in (b(n), b(v))]]
-    for e in evs:
-        if e[0] != 2:
-            ops.append(["data", e[1], e[0]])
-    if trl:
-        ops.append(["trl"] + [t for (n, v) in trl for t in (b(n), b(v))])
+        elif ending == "empty":
+            evs = [(0, k) for k in parts] + [(1, 0)]
+        else:
+            evs = [(0, k) for k in parts] + [(2,)]
+            trl = [(rng.choice(["grpc-status", "x-t", "sozu-id", "x-forwarded-for", "forwarded", "x-real-ip", "x-request-id"] + ([] if clean else ["Bad", "connection", ":path"])),
+                    rng.choice(["0", "0", "a\r\nb"] if not clean else ["0"]))]
+    return dict(hs=pseudo + regs, es=es, evs=evs, trl=trl, h2c=h2c, fr="%s/%s" % (rel, ending), path=path, good=(path == good_path))
+
+
+def h2_conn(cid, streams, rng=None):
+    """frames of 1-3 streams on one connection, interleaved (per-stream order kept)"""
+    per = []
+    for k, t in enumerate(streams):
+        sid = 2 * k + 1
+        l = [["hdr", t["es"]] + [x for (n, v) in t["hs"] for x in (b(n), b(v))]]
+        for e in t["evs"]:
+            if e[0] != 2:
+                l.append(["data", e[1], e[0]])
+        if t["trl"]:
+            l.append(["trl"] + [x for (n, v) in t["trl"] for x in (b(n), b(v))])
+        per.append((sid, l))
+    ops, cur = [], None
+    idx = [0] * len(per)
+    while any(idx[i] < len(per[i][1]) for i in range(len(per))):
+        live = [i for i in range(len(per)) if idx[i] < len(per[i][1])]
+        # HEADERS must open the streams in increasing id order
+        opened = [i for i in live if idx[i] > 0]
+        nxt = [i for i in live if idx[i] == 0][:1]
+        i = rng.choice(opened + nxt) if rng else live[0]
+        if per[i][0] != cur:
+            cur = per[i][0]
+            ops.append(["sid", cur])
+        ops.append(per[i][1][idx[i]])
+        idx[i] += 1
     ops.append(["go"])
-    return Case(cid, ops, dict(kind="h2bb", hs=hs, es=es, evs=evs, trl=trl, h2c=h2c, fr=kind))
+    return Case(cid, ops, dict(kind="h2bb", streams=streams, fr="+".join(t["fr"] for t in streams)))
+
+
+def h2_scenario(rng, cid):
+    return h2_conn(cid, [h2_stream(rng, "s1")], rng)
+
+
+def h2_multi(rng, cid):
+    return h2_conn(cid, [h2_stream(rng, "s%d" % (2 * k + 1)) for k in range(rng.choice([2, 2, 3]))], rng)
+
+
+def h2_predict_stream(t, head, trl_obs, work):
+    """-> (kind, body, strict) for one stream from the model's observations"""
+    trl_ok = True
+    if t["trl"]:
+        trl_ok = trl_obs[0] == "accept" and not any(n.startswith(":") for (n, _) in t["trl"])
+    if head[0] != "accept":
+        return ("refused", None, True)
+    raw = bytes.fromhex(head[1][1:])
+    m = re.search(rb"(?im)^content-length: *([0-9]+)\r$", raw)
+    injected = re.search(rb"(?m)^Content-Length: 0\r$", raw) is not None
+    declared = None if (m is None or (injected and t["es"])) else int(m.group(1))
+    if t["es"]:
+        return ("answered", 0, True)
+    lops = ["ledger", 1 if declared is not None else 0, declared or 0]
+    for e in t["evs"]:
+        lops += [2] if e[0] == 2 else [e[0], e[1]]
+    lt = vlib.model_observations(Case("l", [lops]), RUN_MODULE, RUN_FN, os.path.join(work, "h2pred"))
+    lo = [l.split()[2:] for l in lt.splitlines() if l.startswith("mobs")][0]
+    if lo[0] == "complete" and trl_ok:
+        return ("answered", int(lo[1]), True)
+    # refused. When some prefix of the DATA delivered exactly the declared length, the HTTP/1.1 backend already
+    # holds a complete request and may answer before the excess is seen: either outcome is then legitimate.
+    strict = True
+    if declared is not None:
+        got = 0
+        for e in t["evs"]:
+            if e[0] != 2:
+                got += e[1]
+                if got == declared and sum(x[1] for x in t["evs"] if x[0] != 2) > declared:
+                    strict = False
+    return ("refused", None, strict)
 
 
 def h2_predictions(scns, work):
-    """client outcome predicted by the extracted model: accept_h2 (+ trailer validity) then the ledger"""
+    """client outcomes predicted by the extracted model: accept_h2 (+ trailer validity) then the ledger"""
     ops = []
     for c in scns:
-        t = c.tags
-        ops.append(["h2", t["es"]] + [x for (n, v) in t["hs"] for x in (b(n), b(v))])
-        if t["trl"]:
-            # a trailer block is validated like a header list without pseudo-headers: reuse accept_h2 on
-            # the four valid pseudo-headers + the trailer fields (pseudo / invalid field => refused)
-            ops.append(["h2", 1, b":method", b"GET", b":scheme", b"https", b":path", b"/", b":authority", b"x"]
-                       + [x for (n, v) in t["trl"] for x in (b(n), b(v))])
+        for t in c.tags["streams"]:
+            ops.append(["h2", t["es"]] + [x for (n, v) in t["hs"] for x in (b(n), b(v))])
+            if t["trl"]:
+                ops.append(["h2", 1, b":method", b"GET", b":scheme", b"https", b":path", b"/", b":authority", b"x"]
+                           + [x for (n, v) in t["trl"] for x in (b(n), b(v))])
     text = vlib.model_observations(Case("p", ops), RUN_MODULE, RUN_FN, os.path.join(work, "h2pred"))
     mobs = [l.split()[2:] for l in text.splitlines() if l.startswith("mobs")]
     if len(mobs) != len(ops):
         raise RuntimeError("model printed %d observations for %d ops" % (len(mobs), len(ops)))
     preds, i = [], 0
     for c in scns:
-        t = c.tags
-        head = mobs[i]
-        i += 1
-        trl_ok = True
-        if t["trl"]:
-            trl_ok = mobs[i][0] == "accept" and not any(n.startswith(":") for (n, _) in t["trl"])
+        ps = []
+        for t in c.tags["streams"]:
+            head = mobs[i]
             i += 1
-        if head[0] != "accept":
-            preds.append(("refused", None, True))
-            continue
-        raw = bytes.fromhex(head[1][1:])
-        m = re.search(rb"(?im)^content-length: *([0-9]+)\r$", raw)
-        injected = re.search(rb"(?m)^Content-Length: 0\r$", raw) is not None
-        declared = None if (m is None or (injected and t["es"])) else int(m.group(1))
-        if t["es"]:
-            preds.append(("answered", 0, True))
-            continue
-        # the ledger (same function the theorem cl_data_agree is about)
-        lops = ["ledger", 1 if declared is not None else 0, declared or 0]
-        for e in t["evs"]:
-            lops += [2] if e[0] == 2 else [e[0], e[1]]
-        lt = vlib.model_observations(Case("l", [lops]), RUN_MODULE, RUN_FN, os.path.join(work, "h2pred"))
-        lo = [l.split()[2:] for l in lt.splitlines() if l.startswith("mobs")][0]
-        if lo[0] == "complete" and trl_ok:
-            # a Content-Length framed message cannot carry trailers toward HTTP/1.1: they are dropped, still answered
-            preds.append(("answered", int(lo[1]), True))
-        else:
-            # after the whole declared body was delivered the backend may already have answered
-            got = 0
-            strict = True
-            for e in t["evs"]:
-                if e[0] != 2:
-                    got += e[1]
-                    if declared is not None and got - e[1] <= declared <= got and got > declared:
-                        strict = strict and (got - e[1] < declared)
-            preds.append(("refused", None, strict and not (declared is not None and sum(e[1] for e in t["evs"] if e[0] != 2) > declared and any(
-                sum(x[1] for x in t["evs"][:j + 1] if x[0] != 2) == declared for j in range(len(t["evs"]))))))
+            trl_obs = None
+            if t["trl"]:
+                trl_obs = mobs[i]
+                i += 1
+            ps.append(h2_predict_stream(t, head, trl_obs, work))
+        preds.append(ps)
     return preds
+
+
+def parse_h2_obs(ob):
+    """obs of c03h2bb -> (outcomes {sid: (kind, code)}, goaway, h1 {target: body}, h2c {path: (data, complete)})"""
+    i = 1
+    n = ob[i]; i += 1
+    outc = {}
+    for _ in range(n):
+        outc[ob[i]] = (ob[i + 1], ob[i + 2]); i += 3
+    assert ob[i] == "goaway"; goaway = ob[i + 1]; i += 2
+    assert ob[i] == "seen"; m = ob[i + 1]; i += 2
+    h1 = {}
+    for _ in range(m):
+        h1[ob[i]] = ob[i + 1]; i += 2
+    assert ob[i] == "h2seen"; k = ob[i + 1]; i += 2
+    h2 = {}
+    for _ in range(k):
+        h2[ob[i]] = (ob[i + 1], ob[i + 2]); i += 3
+    return outc, goaway, h1, h2
 
 
 def extra_stage(tier, rng, work):
     res = extra_stage_h1(tier, rng, work)
-    n = {"quick": 90, "thorough": 1200}.get(tier, 90)
-    scns = [h2_scenario(rng, "z%d" % i) for i in range(n)]
+    n = {"quick": 70, "thorough": 1000}.get(tier, 70)
+    scns = [h2_scenario(rng, "z%d" % i) for i in range(n)] + [h2_multi(rng, "zm%d" % i) for i in range(n // 2)]
     # witness of 3321ba0 (corpus/C03/bb/h2bb_cl_trailers.case): Content-Length framing + trailers
-    whs = [(":scheme", "https"), (":path", "/"), (":authority", "localhost"), (":method", "POST"), ("content-length", "5"), ("x-a", "1.2.3.4")]
-    scns.append(Case("zw1", [["hdr", 0] + [t for (k, v) in whs for t in (b(k), b(v))], ["data", 1, 0], ["data", 3, 0], ["data", 1, 0],
-                             ["trl", b"x-t", b"0"], ["go"]],
-                     dict(kind="h2bb", hs=whs, es=0, evs=[(0, 1), (0, 3), (0, 1), (2,)], trl=[("x-t", "0")], h2c=False, fr="cl-trl")))
+    whs = [(":scheme", "https"), (":path", "/s1"), (":authority", "localhost"), (":method", "POST"), ("content-length", "5"), ("x-a", "1.2.3.4")]
+    scns.append(h2_conn("zw1", [dict(hs=whs, es=0, evs=[(0, 1), (0, 3), (0, 1), (2,)], trl=[("x-t", "0")], h2c=False, fr="exact/trailers", path="/s1", good=True)]))
+    # witness of the reviewer's h2.rs mutation: a short body closed by TRAILERS+END_STREAM must be refused
+    whs2 = [(":method", "POST"), (":scheme", "https"), (":path", "/s1"), (":authority", "localhost"), ("content-length", "10")]
+    scns.append(h2_conn("zw2", [dict(hs=whs2, es=0, evs=[(0, 5), (2,)], trl=[("x-t", "0")], h2c=False, fr="short/trailers", path="/s1", good=True)]))
     try:
         preds = h2_predictions(scns, work)
     except Exception as ex:
@@ -531,8 +584,8 @@ def extra_stage(tier, rng, work):
         return res
     outs, problems = vlib.run_harness("c03h2bb", scns, os.path.join(work, "h2bb"), "release", timeout=300, shards=6)
     res["failures"] += problems
-    answered = refused = 0
-    for c, (kind, body, strict) in zip(scns, preds):
+    answered = refused = goaways = 0
+    for c, ps in zip(scns, preds):
         o = outs.get(c.id)
         if o is None:
             res["failures"].append("black-box h2: no result for case %s" % c.id)
@@ -545,24 +598,35 @@ def extra_stage(tier, rng, work):
         ob = [x for x in o["obs"] if x and x[0] == "client"]
         if not ob:
             continue
-        ob = ob[0]
-        got_kind, code, seen, blen, h2seen, h2data = ob[1], ob[2], ob[4], ob[5], ob[7], ob[8]
-        if got_kind == "answered":
-            answered += 1
-        else:
-            refused += 1
-        if kind == "answered":
-            if got_kind != "answered":
-                res["viols"].append((c, "h2bb-outcome", "the model accepts this stream (framing %s) but the client got %s %s" % (c.tags["fr"], got_kind, code)))
+        outc, goaway, h1, h2 = parse_h2_obs(ob[0])
+        goaways += goaway
+        multi = len(ps) > 1
+        for k, (t, (kind, body, strict)) in enumerate(zip(c.tags["streams"], ps)):
+            sid = 2 * k + 1
+            got_kind, code = outc.get(sid, ("silent", 0))
+            if got_kind == "answered":
+                answered += 1
             else:
-                nseen, nbody = (h2seen, h2data) if c.tags["h2c"] else (seen, blen)
-                if nseen != 1 or nbody != body:
-                    res["viols"].append((c, "h2bb-boundary", "sozu understood one request with a %d byte body, the backend read %d request(s), body %d" % (body, nseen, nbody)))
-        elif strict and got_kind == "answered":
-            res["viols"].append((c, "h2bb-outcome", "the model refuses this stream (framing %s) but the client got 200" % c.tags["fr"]))
-        elif strict and got_kind == "silent":
-            res["viols"].append((c, "h2bb-outcome", "the model refuses this stream (framing %s): the client must get RST_STREAM / GOAWAY / an error status, it got nothing within the deadline" % c.tags["fr"]))
-    res["coverage"].update(blackbox_h2_streams=len(scns), blackbox_h2_answered=answered, blackbox_h2_refused=refused)
+                refused += 1
+            # a connection error (GOAWAY) caused by a sibling stream takes the other streams with it
+            lenient = multi and goaway
+            if kind == "answered":
+                if got_kind != "answered":
+                    if not lenient:
+                        res["viols"].append((c, "h2bb-outcome", "stream %d: the model accepts it (framing %s) but the client got %s %s" % (sid, t["fr"], got_kind, code)))
+                else:
+                    key = b(t["path"])
+                    if t["h2c"]:
+                        nbody = h2.get(key, (None, 0))[0]
+                    else:
+                        nbody = h1.get(key)
+                    if nbody != body:
+                        res["viols"].append((c, "h2bb-boundary", "stream %d: sozu understood a %d byte body, the backend read %r" % (sid, body, nbody)))
+            elif strict and got_kind == "answered":
+                res["viols"].append((c, "h2bb-outcome", "stream %d: the model refuses it (framing %s) but the client got 200" % (sid, t["fr"])))
+            elif strict and got_kind == "silent":
+                res["viols"].append((c, "h2bb-outcome", "stream %d: the model refuses it (framing %s): the client must get RST_STREAM / GOAWAY / an error status, it got nothing within the deadline" % (sid, t["fr"])))
+    res["coverage"].update(blackbox_h2_connections=len(scns), blackbox_h2_answered=answered, blackbox_h2_refused=refused, blackbox_h2_goaways=goaways)
     return res
 
 
